@@ -262,13 +262,15 @@ func init() {
 	}
 
 	registry["C03"] = &Check{
-		Rule: "world scenarios: trees of 1-5 actors with drawn supervision, providers, failing OnLaunch / restart hooks; scripts of 1-10 operations (tell with nested programs: tell, panic, Failed, kill, stash/unstash(n), spawn) where every tell draws its target (incl. paths that never existed) and the provenance of the reference (ref returned by ActorOf, Clone, ParseRef, CreateRef, FindActor); sequential or racing (1 in 4); 1 in 10 cases runs the whole script against an already stopped system. Oracle (conservation, evaluated at quiescence after all timers expired): every user message id handed to Tell ends in exactly one of {handled once, in the stash, one dead letter}; after Stop: no handler runs and the case becomes quiescent (bounded work). Non-trivial = a send whose target was not plainly running at send time (never existed / terminated / paused / zombie) or whose reference was not the cached one. Distinct = hash of the scenario.",
+		Rule: "world scenarios: trees of 1-5 actors with drawn supervision, providers, failing OnLaunch / restart hooks; scripts of 1-10 operations (tell with nested programs: tell, panic, Failed, kill, stash/unstash(n), spawn) where every tell draws its target (incl. paths that never existed) and the provenance of the reference (ref returned by ActorOf, Clone, ParseRef, CreateRef, FindActor); sequential or racing (1 in 4); 1 in 10 cases runs the whole script against an already stopped system. Oracle (conservation, evaluated at quiescence after all timers expired): every user message id handed to Tell ends in exactly one of {handled once, in the stash, one dead letter}; after Stop: no handler runs and the case becomes quiescent (bounded work). Non-trivial = a send whose target was not plainly running at send time (never existed / terminated / paused / zombie) or whose reference was not the cached one. Distinct = hash of the scenario. Unit window (generator-owned schedule): the termination / restart chain of one actor (top level or a child, with 0-2 children; kill, graceful kill, restart, failure answered by Stop, kill of its parent) is parked at a drawn statement boundary of killed_handler.go (window points inserted into a copy at check time); meanwhile and afterwards it is told through every kind of reference (spawn ref, clone, parsed, created, FindActor), watched, killed again, looked up, and its name is spawned again; every one of those user messages must end up processed (by the actor, the restarted actor or the successor) or dead-lettered, exactly once. Non-trivial there = the point was reached.",
 		Assumptions: []string{
 			"the documented zombie exception: a message sent to an actor that became a zombie in the run is exempt from the lost clause",
 			"target state classes are derived from the behaviour trace and event stream up to the send; in racing mode the interleaving is the Go scheduler's",
 		},
 		Units: []Unit{
 			{Name: "cons", Pkg: "c03", Run: "^TestC03Conservation$", QuickChecks: 5000, ThoroughChecks: 50000, ThoroughShards: 16, CaseFile: true, CrashOracle: "no-crash", Inject: []Inject{{RepoRel: "internal/actor/zz_verif_export.go", Src: "overlay/actor_export.go.txt"}}},
+			{Name: "window", Pkg: "cwin", Run: "^TestC03Window$", Env: map[string]string{"VERIF_PROPERTY": "C03"}, QuickChecks: 6000, ThoroughChecks: 60000, ThoroughShards: 12, CaseFile: true, CrashOracle: "no-crash", Inject: []Inject{{RepoRel: "internal/actor/zz_verif_export.go", Src: "overlay/actor_export.go.txt"}},
+				Windows: map[string][]string{"internal/actor/killed_handler.go": nil}},
 		},
 	}
 
@@ -298,11 +300,13 @@ func init() {
 	registry["C08"].Units[0].Inject = actorOverlay
 
 	registry["C06"] = &Check{
-		Rule:        "trees of 2-8 actors (depth <= 4; handlers that panic on OnKill / on their own OnKilled), a set-up of 0-8 Watch / Unwatch / Subscribe / Unsubscribe / Loop-job operations, then 1-4 kills (poison or not, from outside or from an actor, through the spawn ref, a clone or a parsed ref, repeated on the same victim, with or without settling in between), spawns in the victim right before / after the kill, late watchers racing the termination; afterwards 5 virtual seconds pass and one event of every type is published. Oracle over the complete trace, the event stream and white-box tables: every descendant of a victim terminated; ActorKilledEvent of an actor after those of all its descendants; one ActorKilledEvent per life, none for survivors; parent and every registered watcher (Watched / Unwatched events before the termination) got exactly one OnKilled, nobody else any; FindActor fails; no event-stream entry; no delivery and no dead letter of events or scheduled messages after the termination; the parent can reuse the name. Non-trivial = a victim with descendants, a notified watcher or a repeated kill. Distinct = hash of the case.",
+		Rule:        "trees of 2-8 actors (depth <= 4; handlers that panic on OnKill / on their own OnKilled), a set-up of 0-8 Watch / Unwatch / Subscribe / Unsubscribe / Loop-job operations, then 1-4 kills (poison or not, from outside or from an actor, through the spawn ref, a clone or a parsed ref, repeated on the same victim, with or without settling in between), spawns in the victim right before / after the kill, late watchers racing the termination; afterwards 5 virtual seconds pass and one event of every type is published. Oracle over the complete trace, the event stream and white-box tables: every descendant of a victim terminated; ActorKilledEvent of an actor after those of all its descendants; one ActorKilledEvent per life, none for survivors; parent and every registered watcher (Watched / Unwatched events before the termination) got exactly one OnKilled, nobody else any; FindActor fails; no event-stream entry; no delivery and no dead letter of events or scheduled messages after the termination; the parent can reuse the name. Non-trivial = a victim with descendants, a notified watcher or a repeated kill. Distinct = hash of the case. Unit window: the same parked termination chain as in C03 (see there) judged by C06: exactly one ActorKilledEvent per termination, parent and every watcher registered before the termination began notified exactly once (watchers that register inside the window: at most once), children reported before the parent, and as soon as the actor has been reported terminated (the parent has handled its OnKilled or the ActorKilledEvent is out) FindActor fails and the parent can reuse the name - inside the window, after the release and at quiescence.",
 		Assumptions: []string{"racing parts (kills without settling, late watchers) sample Go-scheduler interleavings; the oracle holds on every interleaving"},
 		Units: []Unit{
 			{Name: "kill", Pkg: "c06", Run: "^TestC06KillSubtree$", QuickChecks: 6000, ThoroughChecks: 60000, ThoroughShards: 12, CaseFile: true, CrashOracle: "no-crash", Inject: actorOverlay},
 			{Name: "storm", Pkg: "c06", Run: "^TestC06RespawnStorm$", QuickChecks: 60, QuickShards: 4, ThoroughChecks: 600, ThoroughShards: 8, CaseFile: true, CrashOracle: "no-crash", Inject: actorOverlay},
+			{Name: "window", Pkg: "cwin", Run: "^TestC06Window$", Env: map[string]string{"VERIF_PROPERTY": "C06"}, QuickChecks: 6000, ThoroughChecks: 60000, ThoroughShards: 12, CaseFile: true, CrashOracle: "no-crash", Inject: actorOverlay,
+				Windows: map[string][]string{"internal/actor/killed_handler.go": nil}},
 		},
 	}
 
